@@ -1,9 +1,20 @@
 import LokiModel.Sexp
 import LokiModel.C30.Codec
+import LokiModel.C30.Reduce
 open LokiModel.C30 LokiModel.Fir Sexp
 
 /-- `(c30 op flag prog inputs)` → `(ok <transformed program>)` | `(error)` -/
+def strs : List Sexp → Option (List String)
+  | [] => some []
+  | .str s :: xs => (strs xs).map (s :: ·)
+  | .atom s :: xs => (strs xs).map (s :: ·)
+  | _ => none
+
+/-- `(c30 rtext flag "source" "driver" (call names…))` → `(ok unchanged)` | `(ok resolved)` -/
 def step : Sexp → Option Sexp
+  | list [atom "c30", atom "rtext", _, _, _, list names] => do
+      let ns ← strs names
+      pure (list [atom "ok", atom (if keptByReduction ns then "unchanged" else "resolved")])
   | list [atom "c30", op, _, prog, _] => do
       let op ← decOp' op
       let p ← decProgram prog
